@@ -10,8 +10,10 @@ package vmm
 // with the reference.
 
 import (
+	"encoding/binary"
 	"fmt"
 	"testing"
+	"unsafe"
 
 	"github.com/ProjectSerenity/firefly/kernel"
 	"github.com/ProjectSerenity/firefly/kernel/internal/verifrt"
@@ -33,6 +35,51 @@ type vf05Case struct {
 	RsvFrames []uint64 `json:"reservation_frames,omitempty"`
 	FailAt int       `json:"fail_at"`
 	KOff   uint64    `json:"kernel_offset"`
+	// ViaDecoder: the sections are encoded as the ELF-sections tag of a multiboot information block and reach
+	// setupPDTForKernel through the real multiboot.VisitElfSections instead of the visitElfSectionsFn seam
+	ViaDecoder bool `json:"via_multiboot_decoder,omitempty"`
+	// Many > 0: Secs is generated - Many one-page-apart sections of alternating flags starting at Secs[0].Addr
+	Many int `json:"many_sections,omitempty"`
+}
+
+// vf05Block encodes the sections (plus the string table section the format requires) as a multiboot info block.
+func vf05Block(secs []vf05Sec) ([]uint64, []byte) {
+	le := binary.LittleEndian
+	strtab := []byte{0, '.', 's', 0}
+	n := len(secs) + 1
+	payload := make([]byte, 12, 12+64*n)
+	le.PutUint32(payload[0:], uint32(n))
+	le.PutUint32(payload[4:], 64)
+	le.PutUint32(payload[8:], uint32(n-1))
+	mk := func(name uint32, flags, addr, size uint64) {
+		h := make([]byte, 64)
+		le.PutUint32(h[0:], name)
+		le.PutUint32(h[4:], 1)
+		le.PutUint64(h[8:], flags)
+		le.PutUint64(h[16:], addr)
+		le.PutUint64(h[32:], size)
+		payload = append(payload, h...)
+	}
+	for _, sc := range secs {
+		mk(1, uint64(sc.Flags), sc.Addr, sc.Size)
+	}
+	// the string table is not loaded in the kernel's range (address below every kernel offset used here)
+	mk(0, 0, uint64(uintptr(unsafe.Pointer(&strtab[0]))), 0)
+	b := make([]byte, 8, 24+len(payload))
+	hdr := make([]byte, 8)
+	le.PutUint32(hdr[0:], 9)
+	le.PutUint32(hdr[4:], uint32(8+len(payload)))
+	b = append(append(b, hdr...), payload...)
+	for len(b)%8 != 0 {
+		b = append(b, 0)
+	}
+	end := make([]byte, 8)
+	le.PutUint32(end[4:], 8)
+	b = append(b, end...)
+	le.PutUint32(b[0:], uint32(len(b)))
+	backing := make([]uint64, (len(b)+7)/8)
+	copy((*[1 << 30]byte)(unsafe.Pointer(&backing[0]))[:len(b)], b)
+	return backing, strtab
 }
 
 const vf05KOff = uint64(0xffff800000000000)
@@ -65,11 +112,25 @@ func vf05Run(run *verifrt.Run, m *vfMMU, c vf05Case) {
 		}
 		rsvFrames[a] = f.Address()
 	}
+	if c.Many > 0 {
+		base := c.Secs[0]
+		c.Secs = nil
+		for k := 0; k < c.Many; k++ {
+			c.Secs = append(c.Secs, vf05Sec{base.Addr + uint64(k)*4096, 1 + uint64(k*37)%4096, uint32(k % 8)})
+		}
+	}
 	saved := visitElfSectionsFn
 	defer func() { visitElfSectionsFn = saved }()
-	visitElfSectionsFn = func(v multiboot.ElfSectionVisitor) {
-		for i, s := range c.Secs {
-			v(fmt.Sprintf(".s%d", i), multiboot.ElfSectionFlag(s.Flags), uintptr(s.Addr), s.Size)
+	if c.ViaDecoder {
+		backing, strtab := vf05Block(c.Secs)
+		multiboot.SetInfoPtr(uintptr(unsafe.Pointer(&backing[0])))
+		visitElfSectionsFn = multiboot.VisitElfSections
+		defer func(b []uint64, s []byte) { _, _ = b, s }(backing, strtab) // keep both alive for the whole call
+	} else {
+		visitElfSectionsFn = func(v multiboot.ElfSectionVisitor) {
+			for i, s := range c.Secs {
+				v(fmt.Sprintf(".s%d", i), multiboot.ElfSectionFlag(s.Flags), uintptr(s.Addr), s.Size)
+			}
 		}
 	}
 	kernelPDT = PageDirectoryTable{}
@@ -267,6 +328,18 @@ func TestVerifC05(t *testing.T) {
 		}
 	}
 	rsvRec(nil)
+	// through the real multiboot decoder instead of the seam: the single-section shapes on one base, and section tables
+	// of up to 1100 (thorough: 2100) headers whose last sections are loaded ones
+	for _, sh := range shapes {
+		one(vf05Case{Secs: []vf05Sec{{bases[0] + sh.off, sh.size, sh.flags}}, Rsv: 1, KOff: vf05KOff, ViaDecoder: true})
+	}
+	manyN := []int{3, 64, 1023, 1024, 1025, 1100}
+	if run.Thorough() {
+		manyN = append(manyN, 2100)
+	}
+	for _, n := range manyN {
+		one(vf05Case{Secs: []vf05Sec{{Addr: bases[0]}}, Many: n, KOff: vf05KOff, ViaDecoder: true})
+	}
 	// no sections at all (zero-sized sections are filtered out by the multiboot decoder, C10)
 	one(vf05Case{KOff: vf05KOff})
 	// allocation failure at each allocation point of representative configurations
@@ -310,6 +383,6 @@ func TestVerifC05(t *testing.T) {
 			one(vf05Case{Secs: []vf05Sec{{koff + 0x200000 + sh.off, sh.size, sh.flags}, {koff - 0x100000 + 0x10, 100, 7}}, Rsv: 1, KOff: koff})
 		}
 	}
-	run.Finish(true, "every single section over the shape set (start offset {0,1,0x10,0x800,0xff0,0xfff} x sizes ending one byte before / at / one / two bytes after a page boundary over 1-3 pages x W/A/X flag sets) x 5 bases (below / at / above the kernel offset, second P3 entry) x reservations {0,1,3}; every assignment of 5 frames (two runs and a foreign frame) to 1-4 reserved pages; section pairs (full product in thorough, a fixed 1-in-23 sub-lattice in quick); adjacent-page triples; allocation failure at each of the first 14 allocations of 3 configurations (thorough: at each of the first 8 allocations of every single-section shape; 27k three-section sets; sections of 16/511/512/513 pages); 3 kernel offsets",
+	run.Finish(true, "every single section over the shape set (start offset {0,1,0x10,0x800,0xff0,0xfff} x sizes ending one byte before / at / one / two bytes after a page boundary over 1-3 pages x W/A/X flag sets) x 5 bases (below / at / above the kernel offset, second P3 entry) x reservations {0,1,3}; the same shapes and section tables of 3..1100 headers through the real multiboot decoder; every assignment of 5 frames (two runs and a foreign frame) to 1-4 reserved pages; section pairs (full product in thorough, a fixed 1-in-23 sub-lattice in quick); adjacent-page triples; allocation failure at each of the first 14 allocations of 3 configurations (thorough: at each of the first 8 allocations of every single-section shape; 27k three-section sets; sections of 16/511/512/513 pages); 3 kernel offsets",
 		"distinct by (mapped pages, NX pages, RW pages, reservations, sections) outcome class")
 }
